@@ -104,6 +104,9 @@ def quantity(dv: dims.DimVec, magnitude: Any, spelling: str = "si") -> Any:
     from symplyphysics.core.symbols.prefixes import prefixes
     from sympy.physics import units as U
     unit = catalogue.si_unit_of(dv)
+    # 30-digit magnitudes: the library computes with sympy numbers, so float64 cancellation inside
+    # a formula (exp(x) - 1 at tiny x ...) does not masquerade as a wrong formula
+    magnitude = sp.Float(repr(float(magnitude)), 30)
     if spelling == "si" or dv.dimensionless:
         return Quantity(magnitude * unit)
     if spelling == "kilo":
@@ -113,7 +116,7 @@ def quantity(dv: dims.DimVec, magnitude: Any, spelling: str = "si") -> Any:
     if spelling == "named":
         # rewrite the SI unit product with centimetre / gram / minute
         e = sp.S.One
-        factor = 1.0
+        factor = sp.Float(1, 30)
         table = {"length": (U.centimeter, 0.01), "mass": (U.gram, 0.001), "time": (U.minute, 60.0)}
         baseunits = dict(zip(dims.BASES, (U.meter, U.kilogram, U.second, U.ampere, U.kelvin,
             U.mole, U.candela)))
@@ -122,7 +125,7 @@ def quantity(dv: dims.DimVec, magnitude: Any, spelling: str = "si") -> Any:
             if b in table:
                 u, f = table[b]
                 e = e * u**xr
-                factor *= f**float(x)
+                factor = factor * sp.Float(repr(f), 30)**sp.Rational(x.numerator, x.denominator)
             else:
                 e = e * baseunits[b]**xr
         return Quantity((magnitude / factor) * e)
@@ -144,7 +147,9 @@ def realise_param(p: Param, scale: float = 1.0, spelling: str = "si") -> Any:
         return [quantity(d if not isinstance(d, dims.AnyDim) else dims.ONE, m * (1 + 0.3 * i),
             spelling) for i, d in enumerate(p.elems)]
     if p.kind == "qvector":
-        return QuantityVector([quantity(p.dim, m * (1 + 0.3 * i), spelling) for i in range(p.n)])
+        # components not proportional to those of the vector at another position
+        return QuantityVector([quantity(p.dim, m * (1 + 0.3 * i + 0.17 * p.pos * i * i), spelling)
+            for i in range(p.n)])
     raise ValueError(p.kind)
 
 
